@@ -1,5 +1,7 @@
 import TSSVerif.Model.Box
 import TSSVerif.Gen.BoxConsts
+import TSSVerif.Gen.Stmts
+import TSSVerif.Model.StmtsExpected
 /-!
 # C15 — the silent-mode buffer stays bounded and gives resources back
 
@@ -599,5 +601,12 @@ example : (csStore exC (run exC {} [.recv ⟨7, 1, 100⟩, .recv ⟨7, 2, 101⟩
   decide
 example : (csStore exC (run exC {} [.recv ⟨7, 1, 100⟩, .recv ⟨7, 2, 101⟩, .send 1]).1 ⟨7, 3, 103⟩).2 = .stored := by
   decide
+
+
+/-- **The source the model was transcribed from is the current source**: the statements of `HandleMessage`, `storeOrForward`, `Send`, `getOrCreateMessagesByTopic`, `markTopicForSender`, `storedMessages.add`, `maybeGC`, `mark`, `sweep`, `startClock`, regenerated from
+`/repo` on this run, are the committed ones (logging left out). A change of any of them — harmless or not — fails here
+first; the differential and monitored runs of this property are then the search for an input on which it fails. -/
+theorem source_as_modelled : TSSVerif.Gen.Stmts.box = TSSVerif.Model.StmtsExpected.box := by
+  decide +kernel
 
 end TSSVerif.Props.C15
